@@ -67,19 +67,77 @@ def _worker_init(binary, owner_pid):
     runner.set_owner(owner_pid)
 
 
+SAN_FLAVOURS = {
+    # flavour -> (build flavour, wrapper, env, cpu limit)
+    "arith": ("arith", None, None, None),
+    "asan": ("asan", None, {"ASAN_OPTIONS": "halt_on_error=1:abort_on_error=1:detect_leaks=0:allocator_may_return_null=1"}, 60),
+    "valgrind": ("mon", ["valgrind", "--quiet", "--error-exitcode=97", "--leak-check=no", "--track-origins=no"], None, 300),
+}
+SAN_MARKERS = (b"AddressSanitizer", b"Invalid read", b"Invalid write", b"uninitialised value", b"Invalid free", b"Mismatched free",
+               b"definitely lost", b"Process terminating", b"LeakSanitizer")
+_san_bins = {}
+
+
+def _is_sanitizer_report(v):
+    d = v.get("detail") or {}
+    texts = []
+    for k in ("result", "canonical_result"):
+        r = d.get(k)
+        if isinstance(r, dict):
+            texts.append(str(r.get("stderr", "")))
+            if r.get("rc") == 97:
+                return True
+    blob = " ".join(texts) + " " + v.get("what", "")
+    return any(m.decode() in blob for m in SAN_MARKERS)
+
+
 def _run_one(arg):
     modname, job = arg
     mod = importlib.import_module(modname)
     t0 = time.time()
+    flavour = job.get("flavour")
+    saved_bin = runner.binary()
+    if flavour:
+        bf, wrapper, env, cpu = SAN_FLAVOURS[flavour]
+        if bf not in _san_bins:
+            _san_bins[bf] = build.build(bf)
+        runner.set_binary(_san_bins[bf])
+        runner.set_flavour(wrapper, env, cpu)
+    try:
+        res = _run_job_flavoured(mod, job, flavour)
+    finally:
+        if flavour:
+            runner.set_binary(saved_bin)
+            runner.set_flavour()
+    res["job"] = job
+    res["t"] = time.time() - t0
+    return dict(res)
+
+
+def _run_job_flavoured(mod, job, flavour):
     try:
         res = mod.run_job(job)
+        if flavour == "arith":
+            # a panic seen only under overflow checks / debug assertions is recorded, it is not a verdict
+            res["latent"] = res.get("latent", []) + [{"what": v["what"][:300], "job": job.get("id")} for v in res["violations"]]
+            res["violations"] = []
+            res["counts"]["arith_build_executions"] = res["counts"].get("arith_build_executions", 0) + res["evaluations"]
+        elif flavour in ("asan", "valgrind"):
+            keep = [v for v in res["violations"] if _is_sanitizer_report(v)]
+            dropped = len(res["violations"]) - len(keep)
+            for v in keep:
+                v["what"] = "[%s report] %s" % (flavour, v["what"])
+            res["violations"] = keep
+            res["counts"]["%s_executions" % flavour] = res["counts"].get("%s_executions" % flavour, 0) + res["evaluations"]
+            if dropped:
+                res["counts"]["%s_non_sanitizer_alarms_ignored" % flavour] = dropped
+            res["inconclusive"] = []
+        return res
     except Exception:  # harness error: inconclusive, never a violation
         res = JobResult()
         res.inc("harness exception in job %s: %s" % (job.get("id"), traceback.format_exc()[-1500:]))
         res["harness_error"] = True
-    res["job"] = job
-    res["t"] = time.time() - t0
-    return dict(res)
+        return res
 
 
 def load_known():
@@ -144,6 +202,20 @@ class Check:
                         break
         if truncated:
             self.counts["jobs_truncated_by_budget"] = self.counts.get("jobs_truncated_by_budget", 0) + truncated
+
+    def shard(self, jobs, flavour, limit):
+        """Copies up to `limit` jobs as sanitizer-shard jobs of the given flavour (thorough tier)."""
+        out = []
+        for j in jobs[:limit]:
+            k = dict(j)
+            k["flavour"] = flavour
+            k["id"] = "%s@%s" % (j.get("id"), flavour)
+            out.append(k)
+        # build once in the parent so that workers do not race on cargo
+        bf = SAN_FLAVOURS[flavour][0]
+        if out and bf not in _san_bins:
+            _san_bins[bf] = build.build(bf)
+        return out
 
     def merge(self, res):
         self.jobs_run += 1
